@@ -272,7 +272,7 @@ async fn peer_writer(
                     WCmd::Fin => { let _ = send.finish(); }
                     WCmd::Reset(code) => { let _ = send.reset(VarInt::from_u64(code).unwrap()); }
                     WCmd::Stopped(tx) => {
-                        let r = match tokio::time::timeout(Duration::from_secs(20), send.stopped()).await {
+                        let r = match tokio::time::timeout(Duration::from_secs(5), send.stopped()).await {
                             Err(_) => "timeout".to_string(),
                             Ok(Ok(Some(c))) => format!("{}", c.into_inner()),
                             Ok(Ok(None)) => "none".into(),
@@ -364,7 +364,7 @@ fn data_res(r: Poll<Result<Option<Bytes>, StreamErrorIncoming>>, h: &mut Hash) -
     }
 }
 
-const OP_TIMEOUT: Duration = Duration::from_secs(30);
+const OP_TIMEOUT: Duration = Duration::from_secs(5);
 
 async fn scenario(cfg: Cfg, ops: Vec<String>) -> String {
     let (cep, sep, cconn, sconn) = connect(&cfg).await;
@@ -681,7 +681,7 @@ pub fn handle(w: &[&str]) -> String {
     guarded(|| {
         let rt = tokio::runtime::Builder::new_current_thread().enable_all().build().unwrap();
         let r = rt.block_on(async {
-            match tokio::time::timeout(Duration::from_secs(90), scenario(cfg, ops)).await {
+            match tokio::time::timeout(Duration::from_secs(15), scenario(cfg, ops)).await {
                 Ok(s) => s,
                 Err(_) => "timeout".into(),
             }
